@@ -381,15 +381,111 @@ pub fn run(ctx: &Ctx) -> i32 {
             },
         }
     }
+    // across parsers: syn's `full` feature is unified over the user's whole build graph, so the same educe with the same
+    // educe features meets a syn that parses `{ .. }`, tuples, arrays as Expr::Block/Tuple/Array in one build and as
+    // Expr::Verbatim in another. Whatever both builds accept must expand to the same tokens
+    {
+        let mut c3 = GenCfg::full();
+        c3.must = vec![Tr::Default];
+        c3.attr_pct = 70;
+        let mut srcs: Vec<String> = dnas.iter().take(ctx.scale(3000, 20000)).map(|d| request(d).0).collect();
+        let mut wrapped = 0u64;
+        for t in check::draw(ctx.seed, 0xC16F, ctx.scale(3000, 12000), 420) {
+            let dna = t.current();
+            let mut d = Dna::new(&dna);
+            let mut spec = gen::build(&mut d, &c3).spec;
+            // expressions in the syntax that only a full syn gives a shape to
+            let wrap = |e: &str, d: &mut Dna| -> String {
+                match d.pick(4) {
+                    0 => format!("{{ {e} }}"),
+                    1 => format!("({e}, 0u8).0"),
+                    2 => format!("[{e}][0]"),
+                    _ => format!("{{ {{ {e} }} }}"),
+                }
+            };
+            for a in spec.traits.iter_mut() {
+                for (p, _) in a.params.iter_mut() {
+                    if let TParam::Expr(e) = p {
+                        if d.chance(60) {
+                            *e = wrap(e, &mut d);
+                            wrapped += 1;
+                        }
+                    }
+                }
+            }
+            for v in spec.variants.iter_mut() {
+                for f in v.fields.iter_mut() {
+                    for a in f.attrs.iter_mut() {
+                        for (p, _) in a.params.iter_mut() {
+                            if let FParam::Expr(e) = p {
+                                if d.chance(40) {
+                                    *e = wrap(e, &mut d);
+                                    wrapped += 1;
+                                }
+                            }
+                        }
+                    }
+                }
+            }
+            srcs.push(spec.render_def_with("", true));
+        }
+        rep.count("expressions_in_full_only_syntax", wrapped);
+        match driver("/verif/target/feat-full", false, &["full"]) {
+            Err(e) => rep.inconclusive.push(e),
+            Ok(exe) => match drive_with(&exe, &srcs, true) {
+                Err(e) => rep.inconclusive.push(e),
+                Ok(lines) => {
+                    let mine: Vec<Expansion> = srcs.par_iter().map(|s| engine::expand_src(s)).collect();
+                    let mut reported = 0;
+                    for (i, (m, l)) in mine.iter().zip(lines.iter()).enumerate() {
+                        rep.count("cross_parser_comparisons", 1);
+                        let same = match m {
+                            // compared without regard to the spacing of punctuation: a parser that gives `&&x` a shape re-emits
+                            // it as `& & x`, which is the same token sequence for the compiler
+                            Expansion::Ok(t) => flat_hash(t).map(|h| *l == format!("ok {h:016x}")).unwrap_or(false),
+                            // syntax that only the full parser accepts is the documented purpose of the feature
+                            Expansion::Err(msg) if msg.contains("unsupported expression") || msg.contains("features=[\"full\"]") => {
+                                rep.count("accepted_only_with_syn_full", 1);
+                                true
+                            },
+                            Expansion::Err(msg) => l.strip_prefix("err ").map(|x| msg.replace('\n', "\\n").starts_with(x)).unwrap_or(false),
+                            Expansion::Panic(_) => l == "panic",
+                            Expansion::Unparsable(_) => l.starts_with("unparsable") || l.starts_with("err "),
+                        };
+                        if !same && reported < 5 {
+                            reported += 1;
+                            rep.violations.push(Failure {
+                                msg: format!("a build in which syn's `full` feature is on expands this request differently: without = {}, with = {}", outcome_text(m).chars().take(300).collect::<String>(), l.chars().take(300).collect::<String>()),
+                                dna: vec![],
+                                variant: "cross-parser".into(),
+                                source: srcs[i].clone(),
+                                unit_body: None,
+                            });
+                        }
+                    }
+                },
+            },
+        }
+    }
     rep.finish()
 }
 
 /// the in-process driver with all trait features, built with the release profile
 fn release_driver() -> Result<std::path::PathBuf, String> {
-    let feats = ALL_TRAITS.iter().map(|t| t.name()).collect::<Vec<_>>().join(",");
-    let dir = "/verif/target/feat-rel";
+    driver("/verif/target/feat-rel", true, &[])
+}
+
+fn driver(dir: &str, release: bool, extra: &[&str]) -> Result<std::path::PathBuf, String> {
+    let mut names: Vec<&str> = ALL_TRAITS.iter().map(|t| t.name()).collect();
+    names.extend(extra.iter().copied());
+    let feats = names.join(",");
+    let mut args = vec!["build", "--offline", "--quiet"];
+    if release {
+        args.push("--release");
+    }
+    args.extend(["-p", "featdrv", "--no-default-features", "--features", &feats, "--target-dir", dir]);
     let out = std::process::Command::new("cargo")
-        .args(["build", "--offline", "--quiet", "--release", "-p", "featdrv", "--no-default-features", "--features", &feats, "--target-dir", dir])
+        .args(&args)
         .current_dir("/verif/harness")
         .env("CARGO_NET_OFFLINE", "true")
         .output()
@@ -397,13 +493,57 @@ fn release_driver() -> Result<std::path::PathBuf, String> {
     if !out.status.success() {
         return Err(format!("the release-profile driver does not build: {}", String::from_utf8_lossy(&out.stderr).lines().filter(|l| l.contains("error")).take(5).collect::<Vec<_>>().join(" | ")));
     }
-    Ok(std::path::Path::new(dir).join("release").join("featdrv"))
+    Ok(std::path::Path::new(dir).join(if release { "release" } else { "debug" }).join("featdrv"))
 }
 
 /// one answer line per request (`ok <hash>` / `err <message>` / `panic` / `unparsable ..`)
 fn drive(exe: &std::path::Path, srcs: &[String]) -> Result<Vec<String>, String> {
+    drive_with(exe, srcs, false)
+}
+
+/// the same flattening as featdrv's `flat`: every punctuation character is a token of its own
+fn flat(ts: proc_macro2::TokenStream, out: &mut String) {
+    for tt in ts {
+        match tt {
+            proc_macro2::TokenTree::Group(g) => {
+                let (o, c) = match g.delimiter() {
+                    proc_macro2::Delimiter::Parenthesis => ("(", ")"),
+                    proc_macro2::Delimiter::Brace => ("{", "}"),
+                    proc_macro2::Delimiter::Bracket => ("[", "]"),
+                    proc_macro2::Delimiter::None => ("", ""),
+                };
+                out.push_str(o);
+                out.push(' ');
+                flat(g.stream(), out);
+                out.push_str(c);
+                out.push(' ');
+            },
+            proc_macro2::TokenTree::Punct(p) => {
+                out.push(p.as_char());
+                out.push(' ');
+            },
+            other => {
+                out.push_str(&other.to_string());
+                out.push(' ');
+            },
+        }
+    }
+}
+
+fn flat_hash(text: &str) -> Option<u64> {
+    let ts: proc_macro2::TokenStream = text.parse().ok()?;
+    let mut s = String::new();
+    flat(ts, &mut s);
+    Some(fnv64(&s))
+}
+
+fn drive_with(exe: &std::path::Path, srcs: &[String], flat_hashes: bool) -> Result<Vec<String>, String> {
     use std::io::Write;
-    let mut child = std::process::Command::new(exe).stdin(std::process::Stdio::piped()).stdout(std::process::Stdio::piped()).spawn().map_err(|e| format!("spawn featdrv: {e}"))?;
+    let mut cmd = std::process::Command::new(exe);
+    if flat_hashes {
+        cmd.env("VERIF_FEATDRV_FLAT", "1");
+    }
+    let mut child = cmd.stdin(std::process::Stdio::piped()).stdout(std::process::Stdio::piped()).spawn().map_err(|e| format!("spawn featdrv: {e}"))?;
     {
         let mut stdin = child.stdin.take().unwrap();
         let payload: String = srcs.iter().map(|s| format!("{}\n", s.replace('\\', "\\\\").replace('\n', "\\n"))).collect();
